@@ -22,8 +22,9 @@ def _variant(poly, h):
     closed = bool((h // 14) % 2)
     if closed:
         p = p + [p[0]]
-    tx, ty = [(0, 0), (-50, 30), (1000, -1000), (0.5, 0.25), (500000, 6000000)][(h // 28) % 5]      # incl. projected-coordinate magnitudes
-    sc = [1.0, 0.125, 64.0][(h // 140) % 3] if tx < 1e5 else 1.0
+    # incl. projected-coordinate magnitudes and offsets 1e7..1e8 times the polygon size (all exact in float64)
+    tx, ty = [(0, 0), (-50, 30), (1000, -1000), (0.5, 0.25), (500000, 6000000), (2.0 ** 27, -2.0 ** 26), (-2.0 ** 30, 2.0 ** 28)][(h // 28) % 7]
+    sc = [1.0, 0.125, 64.0][(h // 196) % 3] if abs(tx) < 1e5 else 1.0
     return p, {"rot": rot, "rev": rev, "closed": closed, "tx": tx, "ty": ty, "scale": sc}
 
 
@@ -100,6 +101,30 @@ def spec_to_code(ctx, gutils, Grid, cfg):
             except Exception as e:
                 ctx.violation("cells_inside_polygon:exception", repr(e), {"poly": c["poly"]})
                 continue
+            # a smaller grid that the polygon sticks out of (on the right / top / left / bottom, by turns): exactly the cells of
+            # THAT grid whose centres are inside
+            if n % 6 == 0:
+                k4 = (n // 6) % 4
+                ncs, nrs = max(1, nq // 2 + 1), max(1, nq // 2)
+                ox = 0 if k4 in (0, 1) else nq - ncs
+                oy = 0 if k4 in (0, 2) else nq - nrs
+                try:
+                    small = Grid("s", ncs, nrs, cellsize=1.0, xllcorner=q0 - 0.5 + ox, yllcorner=q0 - 0.5 + oy)
+                    dfs = small.cells_inside_polygon(np.array(c["poly"], dtype=float))
+                    got_s = set(int(v) for v in dfs["cell"].values)
+                    cen = small.cell2coord(np.arange(ncs * nrs))
+                    exp_s, amb = set(), set()
+                    for k, (x, y) in enumerate(cen):
+                        a = c["ans"][int(round(x)) - q0][int(round(y)) - q0]
+                        if a == 1:
+                            exp_s.add(k)
+                        elif a == 2:
+                            amb.add(k)
+                    if (got_s - amb) != exp_s:
+                        ctx.violation("cells_inside_polygon:partial-grid", "cells %s, the even-odd rule gives %s (grid of %dx%d cells at offset %d,%d of the lattice)" %
+                                      (sorted(got_s - amb)[:12], sorted(exp_s)[:12], nrs, ncs, ox, oy), {"poly": c["poly"], "grid": [nrs, ncs, ox, oy]})
+                except Exception as e:
+                    ctx.violation("cells_inside_polygon:exception", repr(e), {"poly": c["poly"], "grid": "partial"})
             for ix in range(nq):
                 for iy in range(nq):
                     a = c["ans"][ix][iy]
